@@ -51,6 +51,19 @@ def _skolemize(g):
     return g, []
 
 
+def _has_pos_forall(h, depth):
+    """Does h have a universally quantified (one Int variable) part in a positive position (under And / Implies)?"""
+    if z3.is_quantifier(h):
+        return h.is_forall() and h.num_vars() == 1 and h.var_sort(0) == z3.IntSort()
+    if depth > 3:
+        return False
+    if z3.is_implies(h):
+        return _has_pos_forall(h.children()[1], depth + 1)
+    if z3.is_and(h):
+        return any(_has_pos_forall(c, depth + 1) for c in h.children())
+    return False
+
+
 def _instances(h, skolems, depth):
     """All instances of a (possibly nested) universally quantified fact at the given constants (positive positions)."""
     if z3.is_quantifier(h) and h.is_forall() and h.num_vars() == 1 and h.var_sort(0) == z3.IntSort() and depth < 3:
@@ -124,6 +137,8 @@ class Engine(ExprMixin, CallMixin, ContractMixin, BuiltinMixin, StmtMixin, LoopM
         self.calls_seen = set()
         self.assumed_used = set()
         self.paths = 0
+        self.dropped = None
+        self.at_call_seen = set()
         self.covers = {}  # cover points reached (vacuity guard)
         self.feas_checks = 0
         self.param_syms = {}  # parameter name -> SV at entry (for countermodel concretisation)
@@ -153,10 +168,14 @@ class Engine(ExprMixin, CallMixin, ContractMixin, BuiltinMixin, StmtMixin, LoopM
             # engine-side instantiation: every universally quantified fact of the path condition is
             # instantiated at the skolem constants of the goal (valid instances; the facts stay too)
             terms = list(skolems)
+            # ... and at the loop indices the goal talks about (any instance is sound; these are the useful ones)
+            terms += [c for name, c in sorted(_int_consts([g]).items()) if name.startswith("_i_")][:3]
             if getattr(self, "needs_shifted_instances", False):
                 terms += [q - 1 for q in skolems]  # index-shifted instances (a general list.insert shifts by one)
+            if getattr(self, "needs_plus_instances", False):
+                terms += [q + 1 for q in skolems]  # (list.pop(0) shifts the other way)
             for h in list(pc):
-                if z3.is_quantifier(h) and h.is_forall() and h.num_vars() == 1 and h.var_sort(0) == z3.IntSort():
+                if _has_pos_forall(h, 0):
                     pc.append(_instances(h, terms, 0))
         ob = Obligation(oid, kind, label, pc, g, getattr(node, "lineno", 0), list(st.trace))
         if z3.is_true(g):
@@ -249,10 +268,19 @@ class Engine(ExprMixin, CallMixin, ContractMixin, BuiltinMixin, StmtMixin, LoopM
             self.root_measure = self.evs(ast.parse(fs.decreases, mode="eval").body, st).z
             self.oblige(st, "variant-bounded/recursion", fs.decreases, self.root_measure >= 0, fnode)
         body = [s for s in fnode.body if not _is_doc(s)]
+        if fs.until:
+            cut = [i for i, b in enumerate(body) if ast.unparse(b).startswith(fs.until)]
+            if len(cut) != 1:
+                raise EngineError(f"until={fs.until!r} matches {len(cut)} top-level statements of {target}")
+            self.dropped = f"statements from line {body[cut[0]].lineno} on (`{fs.until}` ...) are outside this contract"
+            body = body[: cut[0]]
         outcomes = self.exec_block(body, st)
         for s2, oc in outcomes:
             self.paths += 1
             self.finish_path(s2, oc, fs, fr, fnode, entry)
+        for key in fs.at_call:
+            if key not in self.at_call_seen:
+                self.note_undecided("at-call", f"no call `{key}` was reached in {target}")
         return self.obligations
 
     def finish_path(self, st: State, oc: Outcome, fs, fr, fnode, entry: State):
